@@ -136,9 +136,15 @@ pub fn gen_c14(rng: &mut Rng, thorough: bool) -> History {
         3 => V14_BUGGIFY,
         _ => 1 + rng.below(15) as u32,
     };
+    // the covering clip may be the surface rect exactly or reach beyond it by up to 6 px
+    let variant = variant | ((rng.below(7) as u32) << 8);
     let buggify = if variant & V14_BUGGIFY != 0 { 1 + rng.below(3) as u32 } else { 0 };
     let n = 1 + rng.usize(if thorough { 16 } else { 8 });
-    let blend = if rng.chance(1, 2) { BlendProfile::Destructive } else { BlendProfile::Uniform };
+    let blend = match rng.below(3) {
+        0 => BlendProfile::Destructive,
+        1 => BlendProfile::Uniform,
+        _ => BlendProfile::Common,
+    };
     // The optimised routes are also taken while layers are open (they only look at the clip
     // stack). Layers are opened either plainly or under a clip rect that is popped again before
     // the eligible calls - the equalities of C14 are relative, so they do not depend on what
